@@ -279,12 +279,21 @@ func RunWorker(cfg WorkerConfig) int {
 
 		final := res
 		ctx.Shrink = true
+
+		runOnce := func(c []uint32) RunResult { return cfg.Prop.Run(ctx, ReplayTape(c)) }
+
+		if es, ok := cfg.Prop.(interface{ ExternalShrink() bool }); ok && es.ExternalShrink() {
+			// verdicts that a process reports only once (race detector): every candidate runs in a fresh process.
+			budget = 400
+			runOnce = func(c []uint32) RunResult { return probeExternal(cfg, c) }
+		}
+
 		shrunk := Shrink(rec, budget, func(c []uint32) bool {
 			if time.Now().After(shrinkDeadline) {
 				return false
 			}
 
-			r := cfg.Prop.Run(ctx, ReplayTape(c))
+			r := runOnce(c)
 			if r.Violation == nil || r.Violation.Prop != v.Prop || r.Violation.Class != v.Class {
 				return false
 			}
@@ -305,13 +314,19 @@ func RunWorker(cfg WorkerConfig) int {
 
 		if !tainted {
 			ctx.Shrink = true
-			r2 = cfg.Prop.Run(ctx, rt)
+			r2 = runOnce(shrunk)
 			ctx.Shrink = false
+
+			if r2.Trace == nil {
+				r2.Trace = final.Trace
+			}
 		}
 
 		if r2.Violation != nil && r2.Violation.Prop == v.Prop && r2.Violation.Class == v.Class {
 			final = r2
-			shrunk = rt.Used()
+			if u := rt.Used(); len(u) > 0 {
+				shrunk = u
+			}
 		} else {
 			// shrinking result does not reproduce (order-sensitive run): fall back to the original tape.
 			shrunk = rec
@@ -449,13 +464,13 @@ func RunParent(cfg ParentConfig) int {
 	// merge
 	var (
 		runs, nontrivSum, steps, orderSens int64
-		stats                               = map[string]int64{}
-		knownHits                           = map[string]int64{}
-		hashes                              = map[uint64]bool{}
-		samples                             []any
-		violations                          []Replay
-		replayFiles                         []string
-		maxWall                             float64
+		stats                              = map[string]int64{}
+		knownHits                          = map[string]int64{}
+		hashes                             = map[uint64]bool{}
+		samples                            []any
+		violations                         []Replay
+		replayFiles                        []string
+		maxWall                            float64
 	)
 
 	for w := 0; w < cfg.Jobs; w++ {
@@ -543,21 +558,21 @@ func RunParent(cfg ParentConfig) int {
 	}
 
 	cov := map[string]any{
-		"evaluations":         runs,
-		"distinct_nontrivial": int64(len(hashes)),
-		"rule":                d.Rule,
-		"samples":             samples,
-		"explanation":         d.Explanation,
-		"runs_per_hour":       perHour(runs),
-		"seeds_per_hour":      perHour(runs),
-		"simulated_steps":     steps,
-		"counters":            stats,
-		"known_finding_hits":  knownHits,
+		"evaluations":          runs,
+		"distinct_nontrivial":  int64(len(hashes)),
+		"rule":                 d.Rule,
+		"samples":              samples,
+		"explanation":          d.Explanation,
+		"runs_per_hour":        perHour(runs),
+		"seeds_per_hour":       perHour(runs),
+		"simulated_steps":      steps,
+		"counters":             stats,
+		"known_finding_hits":   knownHits,
 		"order_sensitive_runs": orderSens,
-		"workers":             cfg.Jobs,
-		"real_code":           d.RealCode,
-		"stubs":               d.Stubs,
-		"exhaustive":          false,
+		"workers":              cfg.Jobs,
+		"real_code":            d.RealCode,
+		"stubs":                d.Stubs,
+		"exhaustive":           false,
 	}
 
 	if len(samples) == 0 {
@@ -702,6 +717,67 @@ func RunReplay(p Property, path, knownFile string) int {
 	}
 
 	fmt.Println("replay does not reproduce a violation on this tree (recorded: " + rp.Violation.Msg + ")")
+
+	return 0
+}
+
+// ProbeResult is what a probe process prints.
+type ProbeResult struct {
+	Violation *Violation `json:"violation"`
+	Harness   string     `json:"harness,omitempty"`
+	Trace     any        `json:"trace,omitempty"`
+}
+
+// probeExternal runs one tape in a fresh process of the same binary.
+func probeExternal(cfg WorkerConfig, tape []uint32) RunResult {
+	self, err := os.Executable()
+	if err != nil {
+		return RunResult{}
+	}
+
+	_ = os.MkdirAll(cfg.OutDir, 0o755)
+	f := filepath.Join(cfg.OutDir, fmt.Sprintf("probe-%d.json", cfg.Worker))
+	b, _ := json.Marshal(tape)
+
+	if err := os.WriteFile(f, b, 0o644); err != nil {
+		return RunResult{}
+	}
+
+	cmd := exec.Command(self, "-probe", f, "-prop", cfg.Prop.ID(), "-tier", cfg.Tier, "-known", cfg.KnownFile)
+	cmd.Env = os.Environ()
+	out, _ := cmd.Output()
+
+	var pr ProbeResult
+	if json.Unmarshal(out, &pr) != nil {
+		return RunResult{}
+	}
+
+	return RunResult{Violation: pr.Violation, Trace: pr.Trace}
+}
+
+// RunProbe executes one tape and prints the result as JSON.
+func RunProbe(p Property, tapeFile, knownFile, tier string) int {
+	b, err := os.ReadFile(tapeFile)
+	if err != nil {
+		return 2
+	}
+
+	var tape []uint32
+	if json.Unmarshal(b, &tape) != nil {
+		return 2
+	}
+
+	kf, _ := LoadKnown(knownFile)
+	known, avoid := knownMaps(kf, p.ID())
+	ctx := &Ctx{Tier: tier, Stats: map[string]int64{}, Known: known, Avoid: avoid, Shrink: true, Aux: map[string]any{}}
+	r := p.Run(ctx, ReplayTape(tape))
+
+	for _, f := range ctx.Cleanups {
+		f()
+	}
+
+	out, _ := json.Marshal(ProbeResult{Violation: r.Violation, Harness: r.Harness, Trace: r.Trace})
+	fmt.Println(string(out))
 
 	return 0
 }
